@@ -70,6 +70,7 @@ Definition exact_ok (tru : assoc) (o : obs) : bool :=
 
 (* (2) consecutive steps in one direction: adjacent views; (3) step views inside the bounds *)
 Definition adjacent_ok (c1 c2 : cmd) (o1 o2 : obs) : bool :=
+  if negb (o_err o2 =? 0) then true else
   (if is_fwd c1 && is_fwd c2 then t_s (o_view o2) =? t_e (o_view o1) else true) &&
   (if is_bwd c1 && is_bwd c2 then t_e (o_view o2) =? t_s (o_view o1) else true).
 Definition within_ok (b : tr) (c : cmd) (o : obs) : bool :=
@@ -111,6 +112,17 @@ Fixpoint trav_bwd (tru : assoc) (b : tr) (l : list (cmd * obs)) (acc : list Z) (
         else trav_bwd tru b r acc pure
       else true
   | [] => true
+  end.
+
+(* clauses (2) and (3) alone *)
+Fixpoint views_trace (b : tr) (prev : option (cmd * obs)) (l : list (cmd * obs)) : bool :=
+  match l with
+  | [] => true
+  | (c, o) :: r =>
+      let b' := match c with SetBounds nb => nb | _ => b end in
+      within_ok b' c o &&
+      match prev with Some (c0, o0) => adjacent_ok c0 c o0 o | None => true end &&
+      views_trace b' (Some (c, o)) r
   end.
 
 Fixpoint ok_trace (tru : assoc) (b : tr) (prev : option (cmd * obs)) (l : list (cmd * obs)) : bool :=
